@@ -59,7 +59,7 @@ EnvStep(a) ==
       [] a.op = "tok"     -> SetTok(a.id, a.shape) /\ UNCHANGED wvars
       \* a request naming another chain, or whose tx hash is not 32 bytes, is not the Alephium watcher's: it is dropped
       \* without any node call
-      [] a.op = "req"     -> IF a.chain = 255 /\ a.len = 32 THEN R_Req(a.tx) /\ UNCHANGED cvars
+      [] a.op = "req"     -> IF a.chain = 255 /\ a.len = 32 /\ ~a.dropped THEN R_Req(a.tx) /\ UNCHANGED cvars
                              ELSE UNCHANGED <<cvars, wvars>>
       [] OTHER            -> UNCHANGED <<cvars, wvars>>        \* failnext: takes effect in a later answer
 
@@ -80,6 +80,9 @@ FinalT(i) ==
 EndStep(a) ==
     /\ ~a.spin
     /\ \A i \in 1..Len(stream) : FinalT(i) => stream[i].id \in PollOuts
+    \* the re-observer is not stalled: whatever the transactions of the earlier requests contained (malformed or foreign
+    \* events included), every request put on its channel has been taken (its tx-status call was made)
+    /\ (aux.starts = 1 /\ ~aux.apifail /\ run = "up") => reqQ = <<>>
     /\ UNCHANGED <<cvars, wvars>>
 
 Logged(ln) ==
@@ -88,7 +91,7 @@ Logged(ln) ==
       [] ln.ev = "Env"      -> EnvStep(ln.a)
       [] ln.ev = "RunStart" -> RunStart /\ UNCHANGED cvars
       [] ln.ev = "RunExit"  -> RunExit /\ UNCHANGED cvars
-      [] ln.ev = "End"      -> EndStep(ln.a)
+      [] ln.ev = "End"      -> EndStep(ln.a) /\ PrintT(<<"REOBS", k, Cardinality({o \in outs : o.path = "reobs"})>>)
       [] OTHER              -> FALSE          \* "Crash": the process died; nothing explains it
 
 Silent == (F_Deliver \/ H_Start \/ F_SkipForeign) /\ UNCHANGED cvars
